@@ -166,6 +166,9 @@ class Runner:
                     else:
                         new[h] = _Dead()
                 self.ents = new
+            elif kind in RICH_OPS:
+                req = "rich:" + kind
+                self.apply_rich(op)
             else:
                 raise AssertionError(kind)
             out = "ok"
@@ -176,6 +179,119 @@ class Runner:
             out = "err:" + ERR.get(name, "other")
         assert req is not None, op
         return req + f"|{self.seed()}", out
+
+    # ---- operations outside the Lean model (C04/C06 oracle histories only)
+    def track(self, e):
+        h = hx(e.dxf.handle)
+        self.ents[h] = e
+        self.order.append(h)
+        return e
+
+    def apply_rich(self, op):
+        doc = self.doc
+        kind = op[0]
+        r12 = self.version == "R12"
+        if kind == "addpoly":
+            lay = self.layout_of(op[1])
+            self.track(lay.add_polyline2d([(0, 0), (1, 0), (1, 1)]))
+        elif kind == "addpoly3d":
+            self.track(self.layout_of(op[1]).add_polyline3d([(0, 0, 0), (1, 0, 1), (1, 1, 2)]))
+        elif kind == "addmisc":
+            lay = self.layout_of(op[1])
+            which = op[2]
+            if which == 0:
+                self.track(lay.add_circle((0, 0), 1.5))
+            elif which == 1:
+                self.track(lay.add_text("txt", dxfattribs={"style": "Standard"}))
+            elif which == 2:
+                self.track(lay.add_point((1, 2, 3)))
+            elif which == 3 and not r12:
+                self.track(lay.add_lwpolyline([(0, 0, 0, 0, 0.5), (1, 0), (1, 1)]))
+            elif which == 4 and not r12:
+                self.track(lay.add_mtext("multi\\Pline"))
+            elif which == 5 and not r12:
+                self.track(lay.add_spline([(0, 0), (1, 1), (2, 0), (3, 1)]))
+            elif which == 6 and not r12:
+                h = lay.add_hatch(color=2)
+                h.paths.add_polyline_path([(0, 0), (1, 0), (1, 1)], is_closed=True)
+                self.track(h)
+            elif which == 7 and not r12:
+                self.track(lay.add_ellipse((0, 0), (2, 0), 0.5))
+            elif which == 8 and not r12:
+                m = lay.add_mesh()
+                with m.edit_data() as d:
+                    d.vertices = [(0, 0, 0), (1, 0, 0), (1, 1, 0)]
+                    d.faces = [[0, 1, 2]]
+                self.track(m)
+            elif which == 9:
+                self.track(lay.add_solid([(0, 0), (1, 0), (0, 1)]))
+            elif which == 10 and not r12:
+                self.track(lay.add_leader([(0, 0), (1, 1), (2, 1)]))
+            elif which == 11 and not r12:
+                dim = lay.add_linear_dim(base=(0, 2), p1=(0, 0), p2=(3, 0))
+                dim.render()
+                self.track(dim.dimension)
+            else:
+                self.track(lay.add_arc((0, 0), 1, 0, 90))
+        elif kind == "insattr":
+            lay = self.layout_of(op[1])
+            ins = lay.add_blockref(op[2], (1, 1))
+            ins.add_attrib("TAG", "value", (0, 0))
+            ins.add_attrib("TAG2", "v2", (0, 1))
+            self.track(ins)
+        elif kind == "group":
+            if r12:
+                return
+            members = [self.ents[h] for h in op[1] if self.ents[h].is_alive and self.ents[h].dxf.owner is not None]
+            g = doc.groups.new()
+            g.set_data(members)
+        elif kind == "xdict":
+            e = self.ents[op[1]]
+            if r12 or not e.is_alive:
+                return
+            xd = e.new_extension_dict() if not e.has_extension_dict else e.get_extension_dict()
+            key = "VERIF"
+            while key in xd:   # replacing an entry orphans the old one (finding F19, probed separately)
+                key += "X"
+            xr = xd.add_xrecord(key)
+            xr.reset([(1, "payload"), (90, 7)])
+        elif kind == "xdata":
+            e = self.ents[op[1]]
+            if not e.is_alive:
+                return
+            if "VERIFAPP" not in doc.appids:
+                doc.appids.add("VERIFAPP")
+            e.set_xdata("VERIFAPP", [(1000, "s"), (1070, 5), (1005, e.dxf.handle)])
+        elif kind == "reactor":
+            e, t = self.ents[op[1]], self.ents[op[2]]
+            if r12 or not (e.is_alive and t.is_alive) or t.dxf.owner is None:
+                return
+            e.append_reactor_handle(t.dxf.handle)
+        elif kind == "explode":
+            e = self.ents[op[1]]
+            if not e.is_alive or e.dxf.owner is None or e.dxftype() != "INSERT":
+                return
+            if doc.blocks.get(e.dxf.name) is None:
+                return
+            for x in e.explode():
+                self.track(x)
+        elif kind == "copylinked":
+            e = self.ents[op[1]]
+            if not e.is_alive:
+                return
+            self.track(e.copy_to_layout(self.layout_of(op[2])))
+        elif kind == "audit":
+            doc.audit()
+        elif kind == "dellinked":
+            e = self.ents[op[1]]
+            if not e.is_alive or e.dxf.owner is None:
+                return
+            e.get_layout().delete_entity(e)
+        elif kind == "newlayer_used":
+            lay = self.layout_of(op[1])
+            if op[2] not in doc.layers:
+                doc.layers.add(op[2])
+            self.track(lay.add_line((0, 0), (1, 0), dxfattribs={"layer": op[2]}))
 
     # ---- observables
     def observe(self) -> str:
@@ -210,6 +326,66 @@ class Runner:
         act = hx(doc.layouts.get_active_layout_key())
         ly = " ".join(enc(n) for n in sorted(l.dxf.name.lower() for l in doc.layers))
         return f"{cs};{' '.join(es)};{bs};{ls};{act};{ly}"
+
+
+RICH_OPS = {"addpoly", "addpoly3d", "addmisc", "insattr", "group", "xdict", "xdata", "reactor", "explode",
+            "copylinked", "audit", "dellinked", "newlayer_used"}
+
+
+def gen_rich(rng):
+    """chooser for histories of the C04/C06 oracle: model ops + rich ops, always within documented use"""
+    base = gen_history(rng, 0, misuse=False)
+
+    def choose(r: Runner):
+        ks = sorted(r.containers().keys())
+        live = [h for h in r.order if r.ents[h].is_alive]
+        linked = [h for h in live if r.ents[h].dxf.owner is not None]
+        x = rng.random()
+        if x < 0.45 or not linked:
+            op = base(r)
+            # stay inside documented/safe use for a closed file
+            if op[0] == "delblock":
+                return ("delblock", op[1], True)
+            if op[0] == "dellayer":
+                return ("purge",)          # removing layers in use / layer 0 is not safe use
+            if op[0] == "renblock":
+                return ("purge",)          # low-level tool: does not rename block references
+            if op[0] == "ins":
+                blocks = [b.name for b in r.doc.blocks if not b.name.startswith("*")]
+                if not blocks:
+                    return ("newblock", op[2])
+                return ("ins", op[1], rng.choice(blocks))
+            return op
+        if x < 0.52:
+            return ("addpoly", rng.choice(ks))
+        if x < 0.55:
+            return ("addpoly3d", rng.choice(ks))
+        if x < 0.68:
+            return ("addmisc", rng.choice(ks), rng.randrange(13))
+        if x < 0.74:
+            blocks = [b.name for b in r.doc.blocks if not b.name.startswith("*")]
+            if not blocks:
+                return ("newblock", "B1")
+            return ("insattr", rng.choice(ks), rng.choice(blocks))
+        if x < 0.78:
+            return ("group", rng.sample(linked, min(len(linked), rng.randint(1, 3))))
+        if x < 0.82:
+            return ("xdict", rng.choice(linked))
+        if x < 0.85:
+            return ("xdata", rng.choice(linked))
+        if x < 0.87:
+            return ("reactor", rng.choice(linked), rng.choice(linked))
+        if x < 0.90:
+            return ("explode", rng.choice(linked))
+        if x < 0.94:
+            return ("copylinked", rng.choice(live), rng.choice(ks))
+        if x < 0.96:
+            return ("audit",)
+        if x < 0.98:
+            return ("dellinked", rng.choice(linked))
+        return ("newlayer_used", rng.choice(ks), rng.choice(LAYERS))
+
+    return choose
 
 
 class _Dead:
